@@ -43,7 +43,8 @@ PROPS = {
 PROBES = {'C14': ['target_without_source_in_range', 'rebind_other_size', 'set_points_after_rebind', 'ill_conditioned_skipped',
                   'property_missing_in_some_array', 'interpolate_after_other_property', 'h_increased_then_update', 'periodic_domain',
                   'order1_repeated', 'order1_3d', 'auto_grid', 'gradient_component', 'integer_typed_targets', 'via_sph_evaluator',
-                  'evaluator_sources_replaced', 'evaluator_target_replaced', 'targets_2d_C', 'targets_2d_F']}
+                  'evaluator_sources_replaced', 'evaluator_target_replaced', 'targets_2d_C', 'targets_2d_F', 'zero_coordinates_left_out',
+                  'only_z_given']}
 
 
 def prepare(prop, tier):
@@ -132,6 +133,10 @@ def gen(t, prop, tier):
             # integer-typed coordinates (e.g. from np.arange), marked by a leading 'int'
             return ['int'] + [[float(t.int(0, int(max(1, L)))) if k < dim else 0.0 for k in range(3)] for _ in range(t.int(1, 6))]
         tg = []
+        if dim > 1 and t.bool(0.15):
+            # points on one coordinate axis (the other coordinates are zero and may be left out when they are handed over)
+            k0 = t.int(0, dim - 1)
+            return [[(t.unit() * L if k == k0 else 0.0) for k in range(3)] for _ in range(t.int(1, 8))]
         for _ in range(t.int(1, 14)):
             far = t.bool(0.1)
             tg.append([(t.unit() * L if not far else L * 3 + 10.0) if k < dim else 0.0 for k in range(3)])
@@ -163,6 +168,7 @@ def gen(t, prop, tier):
     sc['via'] = 'evaluator' if (method != 'order1' and t.bool(0.3)) else 'interp'
     if t.bool(0.4):
         sc['tlayout'] = [t.choice([1, 2, 3, 4]), t.choice(['C', 'F'])]
+    sc['omit_zero'] = int(t.bool(0.5))
     return sc
 
 
@@ -346,6 +352,14 @@ def execute(sc, prop):
             cols = [a[:, k].copy() for k in range(3)]
         user['pts'] = np.asarray(a, dtype=float).copy()
         user['shape'] = shp
+        if sc.get('omit_zero'):
+            # coordinates that are not passed are taken as zero: leave out the all-zero ones (but one array must be given)
+            nz = [k for k in range(3) if np.any(np.asarray(a[:, k]) != 0)] or [0]
+            if len(nz) < 3:
+                probe('zero_coordinates_left_out')
+                if nz == [2]:
+                    probe('only_z_given')
+            cols = [cols[k] if k in nz else None for k in range(3)]
         return cols
     via = sc.get('via', 'interp')
     if via not in ('interp', 'evaluator') or (via == 'evaluator' and method == 'order1'):
@@ -442,6 +456,8 @@ def execute(sc, prop):
                 tolr[i] = 1e-9 * (absum / den if den > 1e-12 else absum) + 1e-300
         return exp, tolr
 
+    earlier = []
+
     def tpos():
         """positions of the targets in the order of the (C-order flattened) result: the arrays the user handed over when
         explicit points were given to the Interpolator, else what the interpolator holds; h as the interpolator holds it"""
@@ -462,6 +478,13 @@ def execute(sc, prop):
             violate('interpolate-raised', 'interpolate(%r, comp=%d) raised %r\n%s' % (propname, comp, e, traceback.format_exc()[-400:]))
             return
         nt = interp.pa.num_real_particles
+        for (old_arr, old_copy, old_what) in earlier:
+            if old_arr.shape != old_copy.shape or not np.array_equal(old_arr, old_copy, equal_nan=True):
+                violate('earlier-result-changed', 'the array returned by %s was modified by a later interpolate() call' % old_what)
+                return
+        if isinstance(raw, np.ndarray):
+            earlier.append((raw, raw.copy(), 'interpolate(%r, comp=%d) #%d' % (propname, comp, ninterp)))
+            del earlier[:-3]
         if via == 'interp' and user['shape'] is not None and len(got) == nt:
             want = tuple(k for k in user['shape'] if k != 1)
             if tuple(raw.shape) != want:
